@@ -289,19 +289,3 @@ Print Assumptions count_empty_R.
 (* ------------------------------------------------------------------ *)
 (* 5. the constant of the standard error  sqrt (3 ln 2 - 1) / sqrt m   *)
 (*    (uses [interval]; its extra assumptions concern only this theorem)          *)
-(* ------------------------------------------------------------------ *)
-From Interval Require Import Tactic.
-
-Lemma relative_error_constant : (1.0389 < sqrt (3 * ln 2 - 1) < 1.0390)%R.
-Proof. split; interval. Qed.
-
-Theorem relative_error_value (m : R) :
-  (0 < m)%R ->
-  (1.0389 / sqrt m < sqrt (3 * ln 2 - 1) / sqrt m < 1.0390 / sqrt m)%R.
-Proof.
-  intros Hm. destruct relative_error_constant as [C1 C2].
-  assert (Hs : (0 < / sqrt m)%R) by (apply Rinv_0_lt_compat, sqrt_lt_R0; exact Hm).
-  unfold Rdiv. split; apply Rmult_lt_compat_r; assumption.
-Qed.
-
-Print Assumptions relative_error_value.
